@@ -140,6 +140,34 @@ fn check_lookup(conf: &AisleConf, out: &mut Vec<Violation>, st: &mut AisleStats)
     }
 }
 
+
+/// L1 through `IngredientList::categorize`: every listed name of the configuration ends up under
+/// its category as the first name of its line, every other name under "other".
+fn check_categorize(r: &AisleConf, names: &[String], out: &mut Vec<Violation>) {
+    let conv = cooklang::Converter::empty();
+    let mut list = cooklang::ingredient_list::IngredientList::new();
+    for n in names {
+        list.add_ingredient(n.clone(), &cooklang::quantity::GroupedQuantity::empty(), &conv);
+    }
+    let cat = list.categorize(r);
+    for n in names {
+        let expect = r.categories.iter().find_map(|c| c.ingredients.iter().find(|i| i.names.contains(&n.as_str())).map(|i| (c.name, i.names[0])));
+        match expect {
+            Some((c, common)) => {
+                let ok = cat.categories.get(c).map(|l| l.iter().any(|(k, _)| k == common)).unwrap_or(false);
+                if !ok {
+                    out.push(v("lookup", format!("categorize: {n:?} not listed under category {c:?} as {common:?}")));
+                }
+            }
+            None => {
+                if !cat.other.iter().any(|(k, _)| k == n) {
+                    out.push(v("lookup", format!("categorize: unknown name {n:?} not under 'other'")));
+                }
+            }
+        }
+    }
+}
+
 /// W2/W3 for one faulty write of `conf` whose fault-free output is `golden`.
 fn check_faulty_write(conf: &AisleConf, golden: &[u8], faults: &[WriteFault], out: &mut Vec<Violation>, st: &mut AisleStats) {
     let mut w = FaultyWriter::new(faults.to_vec(), false);
@@ -385,30 +413,7 @@ fn execute_inner(sc: &AisleScenario) -> (Vec<Violation>, AisleStats) {
                         out.push(v("lookup", format!("reverse() has {} entries for {} names", rev.len(), n)));
                     }
                 }
-                AisleOp::Categorize { names } => {
-                    let conv = cooklang::Converter::empty();
-                    let mut list = cooklang::ingredient_list::IngredientList::new();
-                    for n in names {
-                        list.add_ingredient(n.clone(), &cooklang::quantity::GroupedQuantity::empty(), &conv);
-                    }
-                    let cat = list.categorize(r);
-                    for n in names {
-                        let expect = r.categories.iter().find_map(|c| c.ingredients.iter().find(|i| i.names.contains(&n.as_str())).map(|i| (c.name, i.names[0])));
-                        match expect {
-                            Some((c, common)) => {
-                                let ok = cat.categories.get(c).map(|l| l.iter().any(|(k, _)| k == common)).unwrap_or(false);
-                                if !ok {
-                                    out.push(v("lookup", format!("categorize: {n:?} not listed under category {c:?} as {common:?}")));
-                                }
-                            }
-                            None => {
-                                if !cat.other.iter().any(|(k, _)| k == n) {
-                                    out.push(v("lookup", format!("categorize: unknown name {n:?} not under 'other'")));
-                                }
-                            }
-                        }
-                    }
-                }
+                AisleOp::Categorize { names } => check_categorize(r, names, &mut out),
                 AisleOp::CloneSwap => {
                     let c = r.clone();
                     if c != *r || c.categories != r.categories {
@@ -455,7 +460,17 @@ fn execute_inner(sc: &AisleScenario) -> (Vec<Violation>, AisleStats) {
         (Ok((ga, _)), Ok((gb, _))) if ga == golden && gb == golden => {}
         _ => out.push(v("replica-divergence", "write(A), write(B) and the fault-free output of a fresh parse differ after the histories".into())),
     }
-    // the histories are over: every configuration still answers lookups correctly
+    // the histories are over: every configuration still answers lookups correctly, also through
+    // `IngredientList::categorize` (all of its names plus one that is in no category)
+    {
+        let mut names: Vec<String> = a.categories.iter().flat_map(|c| c.ingredients.iter().flat_map(|i| i.names.iter().map(|n| n.to_string()))).collect();
+        names.push("in no category at all".into());
+        names.sort();
+        names.dedup();
+        if names.len() <= 400 {
+            check_categorize(&a, &names, &mut out);
+        }
+    }
     check_lookup(&a, &mut out, &mut st);
     check_lookup(&b, &mut out, &mut st);
     if let Some(c) = &c_conf {
@@ -694,6 +709,22 @@ pub fn worker(a: &Args) -> i32 {
                 let mut r = Rng::new(mix3(seed, salt ^ 0xE, k));
                 files.push(crate::gen::aisle_structured(&mut r));
             }
+            // alignment sweep: the first name grows byte by byte, so that whatever fixed-size
+            // buffer or chunk a writer uses fills up exactly at the end of a name, of a line, of
+            // a header ... for some k (with a multi-byte name and an empty trailing synonym mixed in)
+            let sweep: Vec<usize> = if runs >= 1000 {
+                (1..=1100).chain(4080..=4104).chain(8176..=8200).collect()
+            } else {
+                (1..=140).collect()
+            };
+            for k in sweep {
+                let first: String = "x".repeat(k);
+                files.push(match k % 3 {
+                    0 => format!("[c]\n{first}|second|third\n[d]\nlast\n"),
+                    1 => format!("[c]\n{first}|é|\n\n[]\n"),
+                    _ => format!("[{first}]\na|b\nc\n"),
+                });
+            }
             for (fi, text) in files.iter().enumerate() {
                 if fi as u64 % workers != worker {
                     continue;
@@ -787,7 +818,7 @@ pub fn worker(a: &Args) -> i32 {
             let maxlen = a.u64("len", 6) as usize;
             let alpha: Vec<&str> = match a.str("alphabet", "ascii7").as_str() {
                 "ascii7" => vec!["[", "]", "|", "/", "\n", " ", "a"],
-                "wide" => vec!["[", "]", "|", "//", "\n", " ", "a", "b", "\u{a0}", "\r\n"],
+                "wide" => vec!["[", "]", "|", "//", "\n", " ", "a", "b", "\u{a0}", "\r\n", "A"],
                 _ => die("unknown alphabet"),
             };
             let k = alpha.len() as u64;
